@@ -136,7 +136,19 @@ func (w *Writer) Close() error {
 // GenFaultFree (C07): every combinator and reducer x every input up to maxLen x every parameter,
 // in the iterator, stream and xslices families.
 func GenFaultFree(w *Writer, maxLen int) {
+	genFaultFree(w, maxLen)
+	// once more with every item value lowered by one inside the library (the zero value of the item type is an item):
+	// value-agnostic operations only, inputs one shorter
+	ValShift = 1
+	genFaultFree(w, maxLen-1)
+	ValShift = 0
+}
+
+func genFaultFree(w *Writer, maxLen int) {
 	for _, c := range Combs() {
+		if ValShift != 0 && !Shiftable(c.Name) {
+			continue
+		}
 		ins := inputsFor(c.Multi, maxLen)
 		nMin := c.NMin
 		if c.Name == "First" {
@@ -157,7 +169,7 @@ func GenFaultFree(w *Writer, maxLen int) {
 		}
 	}
 	for _, r := range Reducers() {
-		if r.Name == "SampleStream" {
+		if r.Name == "SampleStream" || (ValShift != 0 && !Shiftable(r.Name)) {
 			continue
 		}
 		ins := inputsFor(r.Multi, maxLen)
@@ -205,9 +217,21 @@ var ctxPatterns = [][]bool{nil, {true}, {false, true}, {false, false, true}, {tr
 // GenFaults (C08, C09): stream family with source faults, callback failures, expired contexts
 // and every stopping point. The product space is sampled with probability keep (1 = exhaustive).
 func GenFaults(w *Writer, maxLen int, rng *rand.Rand, keep float64) {
+	genFaults(w, maxLen, rng, keep)
+	// a sample once more with shifted item values (the zero value of the item type is an item), short inputs
+	ValShift = 1
+	ml := maxLen
+	if ml > 2 {
+		ml = 2
+	}
+	genFaults(w, ml, rng, keep*0.3)
+	ValShift = 0
+}
+
+func genFaults(w *Writer, maxLen int, rng *rand.Rand, keep float64) {
 	take := func() bool { return keep >= 1 || rng.Float64() < keep }
 	for _, c := range Combs() {
-		if c.S == nil {
+		if c.S == nil || (ValShift != 0 && !Shiftable(c.Name)) {
 			continue
 		}
 		ins := inputsFor(c.Multi, maxLen)
@@ -251,7 +275,7 @@ func GenFaults(w *Writer, maxLen int, rng *rand.Rand, keep float64) {
 		}
 	}
 	for _, r := range Reducers() {
-		if r.S == nil {
+		if r.S == nil || (ValShift != 0 && !Shiftable(r.Name)) {
 			continue
 		}
 		ins := inputsFor(r.Multi, maxLen)
@@ -282,6 +306,10 @@ func GenRandom(w *Writer, rng *rand.Rand, n int) {
 	combs := Combs()
 	for i := 0; i < n; i++ {
 		c := combs[rng.Intn(len(combs))]
+		ValShift = 0
+		if i%3 == 2 && Shiftable(c.Name) {
+			ValShift = 1
+		}
 		p := Params{N: rng.Intn(8), Pred: predTables[rng.Intn(8)], Key: keyTables[rng.Intn(5)]}
 		if c.UsesN && p.N < c.NMin {
 			p.N = c.NMin
@@ -312,6 +340,7 @@ func GenRandom(w *Writer, rng *rand.Rand, n int) {
 			w.Put(RunSlice(c, p, in))
 		}
 	}
+	ValShift = 0
 	// the reducers over long inputs (their parameter up to 12: buffer arithmetic that depends on n and the length)
 	reds := Reducers()
 	for i := 0; i < n/2; i++ {
